@@ -29,6 +29,7 @@ from .tsseq import Lin, add, lin, mk, mul, sym
 
 
 # ----------------------------------------------------------------------------- values
+_RE_FUNCS = ('split', 'findall', 'sub', 'subn', 'match', 'fullmatch', 'search', 'finditer', 'compile', 'escape')
 _IS_GEN: dict = {}        # function node -> does its own body yield (a fact of the syntax tree, computed once per node)
 
 
@@ -276,6 +277,15 @@ class PosInterp:
                 return f(*args, **kwargs)
             except (TypeError, ValueError) as ex:
                 raise Raised(f'{type(ex).__name__}: {ex}')
+        if type(f).__name__ == 'function' and getattr(f, '__module__', '') == 're' and f.__name__ in _RE_FUNCS:
+            # a function of the standard re module applied to concrete texts (stdlib: trusted)
+            if not all(isinstance(a_, (str, int)) or type(a_).__name__ == 'Pattern' for a_ in args) or not all(isinstance(v_, (str, int)) for v_ in kwargs.values()):
+                raise self.err(node, f're.{f.__name__} over abstract values')
+            import re as _re2
+            try:
+                return f(*args, **kwargs)
+            except (TypeError, ValueError, _re2.error) as ex:
+                raise Raised(f'{type(ex).__name__}: {ex}')
         if isinstance(f, Bound):
             if f.fn.kind == 'staticmethod':
                 return self.call_function(f.fn, args, kwargs)        # reached through an instance or the class: no receiver is passed
@@ -416,6 +426,11 @@ class PosInterp:
                 return out_
             if n == 'id':
                 return id(args[0])
+            if n == 'format' and len(args) in (1, 2) and all(isinstance(a_, (str, int)) and not isinstance(a_, bool) for a_ in args):
+                try:
+                    return format(*args)
+                except (TypeError, ValueError) as ex_:
+                    raise Raised(f'{type(ex_).__name__}: {ex_}')
             if n in ('getattr', 'hasattr') and len(args) in (2, 3) and isinstance(args[1], str) and isinstance(args[0], Obj):
                 # attribute of an abstract object by name: what `obj.name` evaluates to; the default / False when the object has none
                 o_, nm_ = args[0], args[1]
@@ -686,6 +701,22 @@ class PosInterp:
         if isinstance(t, ast.Name):
             env[t.id] = v
         elif isinstance(t, (ast.Tuple, ast.List)):
+            stars = [i for i, sub in enumerate(t.elts) if isinstance(sub, ast.Starred)]
+            if len(stars) == 1 and isinstance(v, (tuple, list)):
+                # a, *rest, z = seq : the starred target takes what the others leave, as a list
+                k = stars[0]
+                after = len(t.elts) - k - 1
+                if len(v) < len(t.elts) - 1:
+                    raise Raised(f'ValueError: not enough values to unpack (expected at least {len(t.elts) - 1}, got {len(v)})')
+                vals = list(v)
+                for sub, x in zip(t.elts[:k], vals[:k]):
+                    self.assign(sub, x, env)
+                self.assign(t.elts[k].value, vals[k:len(vals) - after], env)
+                for sub, x in zip(t.elts[k + 1:], vals[len(vals) - after:]):
+                    self.assign(sub, x, env)
+                return
+            if isinstance(v, (tuple, list)) and not stars and len(v) != len(t.elts):
+                raise Raised(f'ValueError: {"too many" if len(v) > len(t.elts) else "not enough"} values to unpack (expected {len(t.elts)}, got {len(v)})')
             if not isinstance(v, (tuple, list)) or len(v) != len(t.elts):
                 raise self.err(t, 'unpacking')
             for sub, x in zip(t.elts, v):
@@ -836,7 +867,7 @@ class PosInterp:
                 return env[e.id]
             if e.id in ('Position', '_StoreHandle', '_StoreBlock', 'TokenStore'):
                 return ClassRef(e.id)
-            if e.id in ('len', 'range', 'slice', 'map', 'filter', 'enumerate', 'list', 'isinstance', 'max', 'min', 'bool', 'abs', 'next', 'reversed', 'tuple', 'str', 'int', 'dict', 'iter', 'any', 'all', 'sorted', 'zip', 'sum', 'set', 'frozenset', 'id', 'repr', 'getattr', 'hasattr'):
+            if e.id in ('len', 'range', 'slice', 'map', 'filter', 'enumerate', 'list', 'isinstance', 'max', 'min', 'bool', 'abs', 'next', 'reversed', 'tuple', 'str', 'int', 'dict', 'iter', 'any', 'all', 'sorted', 'zip', 'sum', 'set', 'frozenset', 'id', 'repr', 'getattr', 'hasattr', 'format'):
                 return Builtin(e.id)
             if e.id == 'NotImplemented':
                 return 'NotImplemented'
@@ -871,6 +902,10 @@ class PosInterp:
                 return ClassRef(e.id)                       # a class of the repository, named in an isinstance test or a constructor call
             raise self.err(e, 'name')
         if isinstance(e, ast.Attribute):
+            if isinstance(e.value, ast.Name) and e.value.id not in env and e.attr in _RE_FUNCS \
+                    and any(isinstance(im, ast.Import) and any(al.name == 're' and (al.asname or al.name) == e.value.id for al in im.names) for im in self.mod.tree.body):
+                import re as _re3
+                return getattr(_re3, e.attr)
             if isinstance(e.value, ast.Name) and e.value.id in ('copy', 'itertools', 'functools', 'operator') and norm(e) in ('copy.copy', 'copy.deepcopy', 'itertools.accumulate', 'itertools.chain', 'itertools.count', 'itertools.groupby', 'functools.reduce',
                            'operator.attrgetter', 'operator.itemgetter', 'operator.imul', 'operator.mul', 'operator.itruediv', 'operator.truediv',
                            'operator.neg', 'operator.pos',
